@@ -572,3 +572,12 @@ package core
 //@   requires s != nil
 //@   loop 1 invariant [cursor-is-past-a-key] nextKey == prefix || (exists k string, z string :: len(z) == 1 && nextKey == strcat(k, z))
 //@   modifies ghost evres
+
+// LoadMinServiceGCSafePoint (the scan that computes the minimum service safe point and prunes expired entries): the
+// garbage collector's own entry (gc_worker) is never removed as expired - a finite expiry found on it is repaired to
+// "never" before the expiry test.
+//@ func (*Storage).LoadMinServiceGCSafePoint
+//@   props C15
+//@   requires s != nil
+//@   at Remove 1 assert [gc-worker-is-never-pruned] ssp.ServiceID != gcWorkerServiceSafePointID
+//@   modifies *
